@@ -9,6 +9,8 @@
 (***************************************************************************)
 EXTENDS TraceBase
 
+CONSTANT StrictOutcome     \* TRUE when the same runs are judged for C07: the outcome the model computed is then part of the property
+
 VARIABLES l, bad, drift
 
 Checks(e) == { <<"no-panic", e.panic = "">>,
@@ -25,7 +27,7 @@ Conf(e) == { <<"model-default-in-terms-of-itself-is-refused", Has(e.files, "#exp
 Init == l = 1 /\ bad = {} /\ drift = {}
 Next == /\ l <= Len(Trace)
         /\ l' = l + 1
-        /\ bad' = bad \cup Tag(l, Failed(Checks(Trace[l])))
+        /\ bad' = bad \cup Tag(l, Failed(Checks(Trace[l]) \cup (IF StrictOutcome THEN Conf(Trace[l]) ELSE {})))
         /\ drift' = drift \cup Tag(l, Failed(Conf(Trace[l])))
 Spec == Init /\ [][Next]_<<l, bad, drift>>
 Done == l = Len(Trace) + 1 => WriteVerdict(Len(Trace), bad, drift)
